@@ -364,6 +364,7 @@ func leastConnsBalance(backs BackendList) (BackendList, error) {
 
 	// more than one backend have same connections/weight,
 	// return all the candidates
+	verifGate("lc_second_pass")
 	for _, backendRR := range backs {
 		if !backendRR.backend.Avail() || backendRR.weight <= 0 {
 			continue
@@ -459,6 +460,7 @@ func (brr *BalanceRR) stickyBalance(key []byte) (*backend.BfeBackend, error) {
 
 	// select available candidates
 	brr.ensureSortedUnlocked()
+	verifGate("sticky_scan")
 	for _, backendRR := range brr.backends {
 		if backendRR.backend.Avail() && backendRR.weight > 0 {
 			candidates = append(candidates, backendRR)
